@@ -762,6 +762,47 @@ func (fr *Frame) instr(b *ssa.BasicBlock, in ssa.Instruction, st *State) *Exit {
 		r := fe.newRef(fr.name(x))
 		fr.vals[x] = Term{r, SInt, x.Type()}
 		fr.closures[x] = x
+		// A closure of /repo is verified under the assumption that what it captured by value (pointers, interfaces,
+		// functions) is non-nil unless its contract says `nilable v`; that assumption is an obligation of the place that
+		// creates the closure. (Variables captured by reference arrive as the address of their cell, never nil.)
+		if cfn, ok := x.Fn.(*ssa.Function); ok && fe.eng.inRepo(cfn) && len(cfn.FreeVars) == len(x.Bindings) {
+			cc := fe.eng.contractFor(cfn)
+			for i, fv := range cfn.FreeVars {
+				if cc != nil && cc.Nilable[fv.Name()] {
+					continue
+				}
+				switch fv.Type().Underlying().(type) {
+				case *types.Pointer, *types.Interface, *types.Signature:
+				default:
+					continue
+				}
+				b := fr.val(x.Bindings[i])
+				if b.K != SInt || fr.nonNilByConstruction(x.Bindings[i]) {
+					continue
+				}
+				fr.obligationOnly(st, in, "nil-capture", cfn.Name()+"("+fv.Name()+")", fmt.Sprintf("(not (= %s 0))", b.S))
+			}
+			// go/ssa captures by reference: the free variable is the address of the variable's cell. For a cell that is
+			// written once (before any closure exists) the closure reads one constant; it is verified assuming that constant
+			// non-nil, so the content of the cell at this point has to be.
+			for i, fv := range cfn.FreeVars {
+				if cc != nil && cc.Nilable[fv.Name()] {
+					continue
+				}
+				pt, isPtr := fv.Type().Underlying().(*types.Pointer)
+				if !isPtr || !fe.eng.freeVarIsCell(cfn, i) || !fe.eng.freeVarReadOnly(cfn, i) {
+					continue
+				}
+				switch pt.Elem().Underlying().(type) {
+				case *types.Pointer, *types.Interface, *types.Signature:
+				default:
+					continue
+				}
+				cell := fr.val(x.Bindings[i])
+				cur := fe.loadRef(st, cell.S, pt.Elem())
+				fr.obligationOnly(st, in, "nil-capture", cfn.Name()+"("+fv.Name()+")", fmt.Sprintf("(not (= %s 0))", cur))
+			}
+		}
 	case *ssa.MakeSlice:
 		l := fr.val(x.Len).S
 		c := fr.val(x.Cap).S
@@ -1153,6 +1194,13 @@ func (fr *Frame) unop(b *ssa.BasicBlock, x *ssa.UnOp, st *State) {
 						g := fe.curGuard
 						fe.curGuard = "" // a constant of the activation: its type invariant holds on every path
 						fe.assumeTypeInv(n, x.Type())
+						if fr.depth == 0 && k == SInt && !fe.nilableParam(fv.Name()) {
+							// non-nil like a parameter: the obligation is at the place that creates the closure (nil-capture)
+							switch x.Type().Underlying().(type) {
+							case *types.Pointer, *types.Interface, *types.Signature:
+								fe.assume(fmt.Sprintf("(not (= %s 0))", n))
+							}
+						}
 						fe.curGuard = g
 					}
 					fr.vals[x] = Term{n, k, x.Type()}
